@@ -110,10 +110,9 @@ def run(prog, tier, extra=None):
         for k, P in pushes.items():
             both = P | subs
             # innermost loop header containing all of them
-            heads = [h for h in range(b.nblocks) if all(b.dominates(h, x) for x in both) and all(h in b.reachable(x) for x in both)]
-            if not heads:
+            H = b.innermost_loop_containing(both)
+            if H is None:
                 continue
-            H = max(heads, key=lambda h: bin(b.dominators()[h]).count("1"))
             exits = set(b.return_blocks()) | {H}
             res.instance(R3)
             name = b.path.split("::", 4)[-1]
